@@ -38,7 +38,12 @@ JudgeEncodeBig(e) == /\ e.out.k = "ok"
 \* and what the sink did take is a prefix of the serialised form
 JudgeEncodeFail(e) == /\ e.out.k = "ok" /\ e.out.prefix_ok /\ e.out.delivered <= e.args.at
                       /\ (e.args.at < e.args.len => e.out.res = "err")
+\* one line of more than 2^16 segments: the same segments carry the range flag after the round trip, no token is lost, and
+\* a lookup one column inside each flagged range reports the original column shifted by one
+JudgeBigLine(e) == /\ e.out.k = "ok" /\ e.out.n2 = e.args.n + 1 /\ e.out.flags2 = e.args.flags
+                   /\ e.out.shifts = [i \in 1..e.args.nshift |-> 1]
 Judge(e) == CASE e.op = "roundtrip" -> JudgeRoundTrip(e)
+              [] e.op = "bigline" -> JudgeBigLine(e)
               [] e.op = "encode_fail" -> JudgeEncodeFail(e)
               [] e.op = "encode_big" -> JudgeEncodeBig(e)
               [] e.op = "encode" -> JudgeEncode(e)
